@@ -659,8 +659,7 @@ Section HybShared.
     match goal with |- body_ok _ (match ?x with _ => _ end) => destruct x as [nc|e] end; [|cbn; auto].
     cbn [body_ok]. intros s4.
     match goal with |- body_ok _ (match ?x with _ => _ end) => destruct x as [nd|e] end; [|cbn; auto].
-    cbn [body_ok]. intros s5.
-    destruct (scores A aw dw (h_cnt s5) nc nd) as [[|b r]|e]; cbn; auto.
+    destruct (scores A aw dw (h_cnt s3) nc nd) as [[|b r]|e]; cbn; auto.
     intros d1. destruct (amem (argmin A b r) (h_dict d1)); cbn; auto.
     intros d2. destruct (amem (argmin A b r) (h_cnt d2)); cbn; auto.
     intros d3. destruct (amem (argmin A b r) (h_dur d3)); cbn; auto.
